@@ -1,6 +1,6 @@
 #!/bin/sh
 # run every claimed quick check; print one summary line each
-cd /verif
+cd "$(dirname "$0")/.."
 for p in $(python3 -c "import json; print(' '.join(c['property_id'] for c in json.load(open('MANIFEST.json'))['checks']))"); do
   ./check $p --tier ${1:-quick} 2>&1 | grep -E "^VIOLATION|quick:|thorough:|Traceback|Error" | cut -c1-230
 done
